@@ -201,7 +201,11 @@ def _check_numerical(eng, R, f):
                 fn_ = args[0] if args[0] is not None else kw.get("func")
                 a_ = args[1] if args[1] is not None else kw.get("a")
                 b_ = args[2] if args[2] is not None else kw.get("b")
-                quads.append((c, isinstance(fn_, ast.Name) and fn_.id in integrands and len(ab) == 2 and norm.txt(a_) == ab[0] and norm.txt(b_) == ab[1]))
+                # the integrand: a local lambda / def of the density, the lambda itself, or (canonical form: lambda x: f(x) is f) the bound density method
+                fr_ = common.resolve_local(f.node, fn_) if fn_ is not None else None   # (a local that names the bound method is read through)
+                dens = (isinstance(fn_, ast.Name) and fn_.id in integrands) or (fr_ is not None and norm.txt(fr_) == "self.eval_model_function_density") \
+                    or (isinstance(fn_, ast.Lambda) and len(fn_.args.args) == 1 and norm.txt(fn_.body) == "self.eval_model_function_density(%s)" % fn_.args.args[0].arg)
+                quads.append((c, dens and len(ab) == 2 and norm.txt(a_) == ab[0] and norm.txt(b_) == ab[1]))
         ok = len(quads) == 1 and quads[0][1] and idx is not None
         why = "the density is not integrated with quad(<density>, lower, upper) over the loop's own edge pair"
         if ok:
